@@ -171,12 +171,16 @@ pub fn realise(plan: &Plan, types: &[u8], mode: LenMode, focus: Prop) -> Vec<u8>
             RefMsg::Msg(d) => d,
             _ => break,
         };
-        let cands: Vec<&FieldExp> = dec
+        let mut cands: Vec<&FieldExp> = dec
             .fields
             .iter()
             .filter(|f| f.width > 0 && f.path != "message_type")
             .filter(|f| !*focused || f.checks.iter().any(|(p, _)| *p == focus))
             .collect();
+        if cands.is_empty() {
+            // a property that owns no field of this layout (C09 owns only the type): any field
+            cands = dec.fields.iter().filter(|f| f.width > 0 && f.path != "message_type").collect();
+        }
         if cands.is_empty() {
             continue;
         }
